@@ -22,14 +22,27 @@
 (* data while its body renders); with SelfRef = FALSE (the code before the *)
 (* fix recorded in KNOWN_FINDINGS.txt) TLC finds the counterexample        *)
 (* Level = "page", two consumers: InjectSound is violated.                 *)
+(*                                                                         *)
+(* Lazy default content (host level only): a slot of the host's template   *)
+(* sits inside the provider; the fill it receives uses `{{ default }}`      *)
+(* inside the body of a component ("lazy" consumer) that is NOT registered  *)
+(* to the provider (isolated mode: its context is the fill's lexical one).  *)
+(* That body is rendered when the lazy consumer's deferred render runs -    *)
+(* after {% endprovide %} - and creates a component under the context       *)
+(* captured inside the provider body, which registers to P and injects.     *)
+(* OwnerRef = TRUE models the current code (the component whose template    *)
+(* contains {% provide %} references the data until it is completely        *)
+(* rendered); with OwnerRef = FALSE (the code before the second recorded    *)
+(* fix) TLC refutes InjectSound / RefsWellFormed with one lazy consumer.    *)
 (***************************************************************************)
 EXTENDS Naturals, Sequences, FiniteSets
 
-CONSTANTS N, Level, SelfRef, AllowFail
+CONSTANTS N, Level, SelfRef, OwnerRef, AllowFail
 
 P == <<"p", 0>>                           \* the provider's id
 Cid(i) == <<"c", i>>                   \* consumer i
 Gid(i) == <<"g", i>>                   \* its injecting child
+H == <<"h", 0>>                        \* the host component whose template contains the provider
 
 VARIABLES cache, refs, allIds,         \* the three registries
           pc,                          \* "start" | "body" | "exited" | "done" | "raised"
@@ -79,7 +92,7 @@ Inject(s, who) == <<who, P \in s.cache>>                          \* provide_cac
 \* a consumer (and, for a "mid", its child) renders to completion
 Complete(s, i, sh) ==
   IF sh = "leaf" THEN [s |-> Unregister(s, Cid(i)), inj |-> <<>>]
-  ELSE LET s1 == Register(s, Gid(i))
+  ELSE LET s1 == Register(s, Gid(i))        \* "mid": child tag in the consumer's template; "lazy": {{ default }}
            s2 == Unregister(s1, Gid(i)) IN
        [s |-> Unregister(s2, Cid(i)), inj |-> << Inject(s1, Gid(i)) >>]
 
@@ -88,18 +101,22 @@ Complete(s, i, sh) ==
 ProvideEnter ==
   /\ pc = "start" /\ pc' = "body"
   /\ before' = allIds
-  /\ LET s0 == St(cache \cup {P}, refs, allIds) IN
-     Becomes(IF SelfRef
-             THEN St(s0.cache, [q \in DOMAIN s0.refs \cup {P} |-> IF q = P THEN {P} ELSE s0.refs[q]],
-                     s0.allIds \cup {P})
-             ELSE s0)
+  /\ LET s0 == St(cache \cup {P}, refs, allIds)
+         s1 == IF SelfRef
+               THEN St(s0.cache, [q \in DOMAIN s0.refs \cup {P} |-> IF q = P THEN {P} ELSE s0.refs[q]],
+                       s0.allIds \cup {P})
+               ELSE s0 IN
+     \* ProvideNode.render: register_provide_reference(context, <id of the enclosing component>)
+     Becomes(IF OwnerRef /\ Level = "host" THEN Register(s1, H) ELSE s1)
   /\ UNCHANGED <<next, shape, pending, injects, failed>>
 
 \* a {% component %} tag in the provider body: _render_impl up to get_context_data
 ConsumerTag(sh, fails) ==
   /\ pc = "body" /\ next <= N
+  /\ (sh = "lazy" => Level = "host" /\ ~fails)
   /\ LET i == next
-         s1 == Register(Cur, Cid(i))
+         \* a lazy consumer's context does not hold P's key: it only enters all_reference_ids
+         s1 == IF sh = "lazy" THEN St(cache, refs, allIds \cup {Cid(i)}) ELSE Register(Cur, Cid(i))
          inj == Inject(s1, Cid(i)) IN
      IF fails
      THEN \* get_context_data raises: the exception leaves the provider body
@@ -108,7 +125,7 @@ ConsumerTag(sh, fails) ==
           /\ LET s2 == Unregister(s1, Cid(i))                            \* _cleanup_failed_render of the failing component
                  s3 == Cleanup(IF SelfRef THEN Unregister(s2, P) ELSE s2)  \* `finally` of managed_provide_cache
                  \* the host (render root) releases the components that will never be rendered
-                 s4 == UnregisterAll(s3, {Cid(pending[j]) : j \in 1..Len(pending)}) IN
+                 s4 == UnregisterAll(s3, {Cid(pending[j]) : j \in 1..Len(pending)} \cup {H}) IN
              Becomes(s4)
           /\ UNCHANGED <<next, shape, pending, before>>
      ELSE IF Level = "page"
@@ -116,7 +133,7 @@ ConsumerTag(sh, fails) ==
           /\ Becomes(c.s) /\ injects' = Append(injects, inj) \o c.inj
           /\ next' = next + 1 /\ shape' = Append(shape, sh)
           /\ UNCHANGED <<pc, pending, before, failed>>
-     ELSE /\ Becomes(s1) /\ injects' = Append(injects, inj)
+     ELSE /\ Becomes(s1) /\ injects' = (IF sh = "lazy" THEN injects ELSE Append(injects, inj))
           /\ next' = next + 1 /\ shape' = Append(shape, sh) /\ pending' = Append(pending, i)
           /\ UNCHANGED <<pc, before, failed>>
 
@@ -134,11 +151,13 @@ DeferredComplete ==
      /\ Becomes(c.s) /\ injects' = injects \o c.inj /\ pending' = Tail(pending)
   /\ UNCHANGED <<pc, before, next, shape, failed>>
 
+\* (the host itself is rendered completely: on_component_rendered -> unregister_provide_reference(host))
 Finish == /\ pc = "exited" /\ pending = <<>> /\ pc' = "done"
-          /\ UNCHANGED <<cache, refs, allIds, before, next, shape, pending, injects, failed>>
+          /\ Becomes(IF Level = "host" THEN Unregister(Cur, H) ELSE Cur)
+          /\ UNCHANGED <<before, next, shape, pending, injects, failed>>
 
 Next == \/ ProvideEnter
-        \/ \E sh \in {"leaf", "mid"} : ConsumerTag(sh, FALSE)
+        \/ \E sh \in {"leaf", "mid", "lazy"} : ConsumerTag(sh, FALSE)
         \/ (AllowFail /\ \E sh \in {"leaf"} : ConsumerTag(sh, TRUE))
         \/ ProvideExit \/ DeferredComplete \/ Finish
 
